@@ -16,6 +16,9 @@ package sniffing
 //@   at return 1 assert s.buf.Len() < 5
 //@   at return 2 assert bb()[0] != ContentType_HandShake || bb()[1] != 3
 //@   at return 3 assert len(bb()) - 5 < bb()[3] * 256 + bb()[4]
+// the ClientHello walk is given exactly the body of the first record - the announced number of bytes after
+// the 5-byte record header - and nothing that follows it in the buffer
+//@   at call extractSniFromTls#1 assert len(unbox(a0, "quicutils.BuiltinBytesLocator")) == length && length == bb()[3] * 256 + bb()[4] && unbox(a0, "quicutils.BuiltinBytesLocator").$base == bb().$base && unbox(a0, "quicutils.BuiltinBytesLocator").$off == bb().$off + 5
 
 // ClientHello walk: each "not applicable" answer is given exactly for the structural reason at that step
 // (too short for the next variable-length field, wrong handshake type or version), and the extension
